@@ -15,7 +15,9 @@ use std::panic::{catch_unwind, AssertUnwindSafe};
 use std::rc::Rc;
 
 const SLOTS: usize = 4;
-const POOL: usize = 8;
+const POOL: usize = 9;
+/// pool entry 8: a node created on the spot by the rewiring child, owned by the dependency alone
+const FRESH: usize = 8;
 
 struct DepRec {
     dep: Dependency<i64>,
@@ -53,6 +55,18 @@ struct Shared {
     last_kind: Cell<&'static str>,
     /// how often the map of pool entry 3+i ran in the current round
     map_runs: RefCell<Vec<u32>>,
+    /// live closures of FRESH nodes
+    fresh_live: Rc<Cell<isize>>,
+    /// make_stale was called while the expert node was not observable
+    stale_called_unobserved: Cell<bool>,
+    e_observable: Cell<bool>,
+}
+
+struct FreshTok(Rc<Cell<isize>>);
+impl Drop for FreshTok {
+    fn drop(&mut self) {
+        self.0.set(self.0.get() - 1);
+    }
 }
 
 #[derive(Debug)]
@@ -195,6 +209,7 @@ fn inner(seed: u64, actions: &mut Vec<String>, stats: &mut (bool, u64, u64), fau
             move |b| {
                 sh.tick("observability_cb");
                 sh.obs_changes.borrow_mut().push(b);
+                sh.e_observable.set(b);
                 if let Some(o) = sh.probe.borrow().as_ref().and_then(|w| w.upgrade()) {
                     sh.probe_reads.set(sh.probe_reads.get() + 1);
                     let r = o.try_get_value();
@@ -223,7 +238,15 @@ fn inner(seed: u64, actions: &mut Vec<String>, stats: &mut (bool, u64, u64), fau
             match p {
                 0..=2 => xs[p].clone(),
                 3..=5 => ms[p - 3].clone(),
-                _ => sh.inner.borrow()[p - 6].clone().expect("bind has not run yet"),
+                6 | 7 => sh.inner.borrow()[p - 6].clone().expect("bind has not run yet"),
+                _ => {
+                    sh.fresh_live.set(sh.fresh_live.get() + 1);
+                    let tok = FreshTok(sh.fresh_live.clone());
+                    xs[0].map(move |v| {
+                        let _ = &tok;
+                        v + 1000
+                    })
+                }
             }
         }
     };
@@ -246,6 +269,10 @@ fn inner(seed: u64, actions: &mut Vec<String>, stats: &mut (bool, u64, u64), fau
                 slots.sort();
             }
             for s in slots {
+                let keep_fresh = desired[s] == Some(FRESH) && sh.current.borrow()[s].as_ref().map_or(false, |d| d.pool == FRESH);
+                if keep_fresh {
+                    continue;
+                }
                 let want: Option<(usize, Incr<i64>)> = desired[s].map(|p| (p, pool_node(p)));
                 let have_same = {
                     let cur = sh.current.borrow();
@@ -266,7 +293,7 @@ fn inner(seed: u64, actions: &mut Vec<String>, stats: &mut (bool, u64, u64), fau
                         if n_live > 0 {
                             sh.removed_non_last.set(sh.removed_non_last.get() + 1);
                         }
-                        if d.pool >= 6 {
+                        if d.pool == 6 || d.pool == 7 {
                             let cur_inner = sh.inner.borrow()[d.pool - 6].clone();
                             if cur_inner.map_or(true, |c| c != d.node) {
                                 sh.removed_invalid.set(sh.removed_invalid.get() + 1);
@@ -303,6 +330,9 @@ fn inner(seed: u64, actions: &mut Vec<String>, stats: &mut (bool, u64, u64), fau
                 }
             }
             if sh.make_stale.replace(false) {
+                if !sh.e_observable.get() {
+                    sh.stale_called_unobserved.set(true);
+                }
                 e_w.make_stale();
             }
             if sh.invalidate.replace(false) {
@@ -322,6 +352,9 @@ fn inner(seed: u64, actions: &mut Vec<String>, stats: &mut (bool, u64, u64), fau
     *sh.probe.borrow_mut() = Some(Rc::downgrade(&join_obs));
 
     let mut e_obs: Option<Observer<i64>> = Some(e.watch().observe());
+    // the rewiring child observed on its own: it then runs (and edits the dependency set) while
+    // the expert node itself is not necessary
+    let mut m_obs: Option<Observer<()>> = None;
     let mut above_obs: Option<Observer<i64>> = if rng.chance(1, 2) { Some(above.observe()) } else { None };
     let mut xvals = [1i64, 2, 3];
     let mut cvals = [1i64, 1];
@@ -339,7 +372,7 @@ fn inner(seed: u64, actions: &mut Vec<String>, stats: &mut (bool, u64, u64), fau
                 let v = if rng.chance(1, 5) {
                     None
                 } else {
-                    Some(if can_bind && rng.chance(1, 3) { 6 + rng.below(2) } else if rng.chance(1, 3) {
+                    Some(if rng.chance(1, 6) { FRESH } else if can_bind && rng.chance(1, 3) { 6 + rng.below(2) } else if rng.chance(1, 3) {
                         // duplicate of another slot's child
                         sh.desired.borrow().iter().flatten().next().copied().unwrap_or(rng.below(6))
                     } else {
@@ -379,9 +412,17 @@ fn inner(seed: u64, actions: &mut Vec<String>, stats: &mut (bool, u64, u64), fau
                 }
             }
             7 => {
-                if e_obs.is_some() && rng.chance(1, 2) {
+                if rng.chance(1, 3) {
+                    if m_obs.is_some() {
+                        m_obs = None;
+                        actions.push("unobserve child".into());
+                    } else {
+                        m_obs = Some(m.observe());
+                        actions.push("observe child".into());
+                    }
+                } else if (e_obs.is_some() || m_obs.is_some()) && rng.chance(1, 2) {
                     sh.make_stale.set(true);
-                    want_stale = true;
+                    want_stale = e_obs.is_some();
                     gen.update(|g| g + 1);
                     actions.push("make_stale".into());
                 }
@@ -405,7 +446,8 @@ fn inner(seed: u64, actions: &mut Vec<String>, stats: &mut (bool, u64, u64), fau
                     .map(|p| match p {
                         0..=2 => xvals[p],
                         3..=5 => xvals[p - 3] * 2,
-                        _ => kvals[p - 6] + cvals[p - 6] * 10,
+                        6 | 7 => kvals[p - 6] + cvals[p - 6] * 10,
+                        _ => xvals[0] + 1000,
                     })
                     .collect();
                 *sh.expected.borrow_mut() = exp.clone();
@@ -513,6 +555,22 @@ fn inner(seed: u64, actions: &mut Vec<String>, stats: &mut (bool, u64, u64), fau
                     }
                 }
                 want_stale = false;
+                if e_obs.is_some() && !invalidated && sh.stale_called_unobserved.replace(false) && sh.recomputes_this_round.get() != 1 {
+                    return Err(format!(
+                        "make_stale() was called while the expert node was unobserved; the first stabilise after it was observed again ran {} recomputes, expected exactly 1",
+                        sh.recomputes_this_round.get()
+                    ));
+                }
+                // (an invalidated node that the program still holds keeps its recorded inputs: not judged)
+                if !invalidated {
+                    let held = sh.current.borrow().iter().flatten().filter(|d| d.pool == FRESH).count() as isize;
+                    if sh.fresh_live.get() != held {
+                        return Err(format!(
+                            "[C12] {} node(s) created for dependencies are still alive after stabilise#{round}, but only {held} dependency(ies) on such nodes exist (a removed dependency keeps its child alive)",
+                            sh.fresh_live.get()
+                        ));
+                    }
+                }
                 if sh.removed_non_last.get() > 0 || sh.added_on_computed.get() > 0 {
                     nontrivial = true;
                 }
@@ -532,6 +590,7 @@ fn inner(seed: u64, actions: &mut Vec<String>, stats: &mut (bool, u64, u64), fau
     sh.current.borrow_mut().clear();
     sh.inner.borrow_mut().clear();
     drop(e_obs);
+    drop(m_obs);
     drop(above_obs);
     drop(join_obs);
     drop(keep_binds);
@@ -557,7 +616,7 @@ pub fn run(seed: u64, shard: u64, count: u64) -> J {
         if let Some(m) = o.violation {
             if violations.len() < 10 {
                 violations.push(J::obj(vec![
-                    ("property", J::s(if m.starts_with("[C07]") { "C07" } else if m.starts_with("[C05]") { "C05" } else { "C14" })),
+                    ("property", J::s(if m.starts_with("[C07]") { "C07" } else if m.starts_with("[C05]") { "C05" } else if m.starts_with("[C12]") { "C12" } else { "C14" })),
                     ("message", J::s(format!("{m}; history: {:?}", o.actions))),
                     ("argv", J::Arr(vec![J::s("expert-one"), J::s(hseed.to_string())])),
                 ]));
